@@ -309,7 +309,7 @@ func (m *model) block(h int64, t time.Time, ops []op, amounts []int64, res []har
 			pfr = prev.frozen[r.accused]
 		}
 		newFreeze := fr != nil && fr.FrozenHeight == h && fr.Status == statusByzantine && (pfr == nil || pfr.FrozenHeight != h)
-		if _, already := m.frozen[r.accused]; already {
+		if f, already := m.frozen[r.accused]; already && f.byz {
 			newFreeze = false // frozen by an earlier verdict of the model (cannot happen twice: one request per accused)
 		}
 		var yesA, noA, yesS, noS int64
@@ -472,7 +472,21 @@ func (m *model) block(h int64, t time.Time, ops []op, amounts []int64, res []har
 		if fr == nil || !fr.isFrozen() {
 			m.violate("C19|guilty-validator-not-frozen|op=end-block-tally", fmt.Sprintf("height %d: %s found guilty but no frozen record", h, m.nameOf(x)))
 		}
-		m.frozen[x] = &freeze{at: t, height: h, byz: true, wasInSet: inTM(x)}
+		_, missedBefore := m.frozen[x]
+		m.frozen[x] = &freeze{at: t, height: h, byz: true, wasInSet: inTM(x) && !missedBefore}
+		for _, u := range ups {
+			// frozen for missed votes at the begin of this very block and found guilty at its end: the
+			// power-0 update is already in this block's updates
+			if a, ok := m.actor[x]; ok && a != user && bytes.Equal(u.PubKey.Data, m.w.Vals[a].Val.Pub.Data) && u.Power == 0 {
+				m.frozen[x].sawZero = true
+			}
+		}
+		if missedBefore {
+			// already frozen for missed votes: the removal from the set was started by that mechanism (its
+			// power-0 update may be out already), only the freeze itself and its release time are judged
+			m.count("antecedent_guilty_verdict_on_validator_frozen_for_missed_votes")
+			m.tags["guilty-while-frozen-for-missed-votes"] = true
+		}
 		delete(m.released, x)
 	}
 	// nobody's stake changes except by its own accepted staking transactions and by a verdict
